@@ -179,7 +179,7 @@ def case_emitted(acc, seed: int, h: str, m: str, ln: int, sid: str, api: str) ->
 
 def shards(tier: str, seed: int):
     out = [["emit", h, m] for h in c01.HASHES for m in c01.MODES]
-    out += [["gen", k] for k in ("cross", "kid", "names", "sid", "params", "pairs")]
+    out += [["gen", k] for k in ("cross", "kid", "names", "sid", "params", "pairs", "huge", "repack")]
     return out
 
 
@@ -224,6 +224,36 @@ def run_shard(shard, tier, seed, acc) -> None:
             for kp in (None, b"\x05\x00", der.enc_seq(der.enc_int(5))):
                 for ek in (b"", bytes(8), cek, bytes(200)):
                     case_generated(acc, ["params", None if cp is None else cp.hex(), None if kp is None else kp.hex(), len(ek)], BASE_KID, SIDS[1], ek, content, cp, kp)
+    elif fam == "huge":
+        for L in (2**24 - 1 - 400, 2**24 - 200, 2**24, 2**24 + 17):
+            case_generated(acc, ["content_len", L], BASE_KID, SIDS[0], cek, bytes(L), GCM, None)
+    elif fam == "repack":
+        # DPAPINGBlob is a mutable dataclass: pack, change a field, pack again
+        from dpapi_ng._blob import SIDDescriptor
+
+        obj = impl_blob(BASE_KID, SIDS[0], cek, content, GCM, None)
+        state = dict(kid=dict(BASE_KID), sid=SIDS[0], cek=cek, content=content, cp=GCM, kp=None)
+        steps = [("enc_content", bytes(200)), ("enc_content", bytes(65536)), ("enc_cek", bytes(8)), ("enc_content_parameters", None), ("protection_descriptor", SIDS[1]), ("enc_content", b"\x01"), ("enc_cek_parameters", b"\x05\x00"), ("enc_content_parameters", GCM)]
+        for i_, (fld, val) in enumerate(steps):
+            if fld == "protection_descriptor":
+                obj.protection_descriptor = SIDDescriptor(val)
+                state["sid"] = val
+            else:
+                setattr(obj, fld, val)
+                state[{"enc_content": "content", "enc_cek": "cek", "enc_content_parameters": "cp", "enc_cek_parameters": "kp"}[fld]] = val
+            for in_env in (True, False):
+                acc.ev()
+                acc.nt(("repack", i_, in_env))
+                ref = cms.encode(ref_blob(state["kid"], state["sid"], state["cek"], state["content"], state["cp"], state["kp"], in_env))
+                try:
+                    got = bytes(obj.pack(blob_in_envelope=in_env))
+                except Exception as e:  # noqa: BLE001
+                    acc.violate(f"repack.exc.{type(e).__name__}", ["repack", i_, fld, in_env], {"exc": repr(e)})
+                    continue
+                if got != ref:
+                    acc.violate("repack-after-mutation.bytes", ["repack", i_, fld, in_env], {"lens": [len(got), len(ref)]})
+                else:
+                    acc.outcome("repack-ok")
     elif fam == "pairs":
         lens = [0, 1, 127, 128, 256, 65536] if tier == "quick" else [0, 1, 16, 111, 112, 127, 128, 255, 256, 65535, 65536]
         for L, ki, nm, sid in itertools.product(lens, (0, 32, 128, 800), NAMES[::2], SIDS[:3]):
@@ -237,7 +267,7 @@ def replay(case, seed, acc) -> None:
         case_emitted(acc, seed, *case[1:6])
         return
     # generated cases are cheap: re-run the families and keep the matching case
-    for fam in ("cross", "kid", "names", "sid", "params", "pairs"):
+    for fam in ("cross", "kid", "names", "sid", "params", "pairs", "huge", "repack"):
         run_shard(["gen", fam], "quick", seed, acc)
     for k in list(acc.violations):
         acc.violations[k] = [e for e in acc.violations[k] if e["case"] == case]
